@@ -143,3 +143,26 @@ mod casts_rows { use super::*; use vek::mat::repr_c::row_major::{Mat2, Mat3, Mat
     casts!(c03_casts_rows2, Mat2, 2); casts!(c03_casts_rows3, Mat3, 3); casts!(c03_casts_rows4, Mat4, 4); }
 mod casts_cols { use super::*; use vek::mat::repr_c::column_major::{Mat2, Mat3, Mat4};
     casts!(c03_casts_cols2, Mat2, 2); casts!(c03_casts_cols3, Mat3, 3); casts!(c03_casts_cols4, Mat4, 4); }
+
+// ---------------------------------------------------------------------------------------------- OpenGL transpose flag
+/// the associated constant and the method agree, per layout: row-major storage must be transposed for OpenGL, column-major not;
+/// the flat slice named by the layout, read with that flag, denotes the same matrix
+#[kani::proof]
+#[kani::unwind(4)]
+fn c03_gl_transpose_flag() {
+    let vals: [[u8; 2]; 2] = kani::any();
+    let r = rm::Mat2::<u8>::from_row_arrays(vals);
+    let c = cm::Mat2::<u8>::from_row_arrays(vals);
+    assert!(rm::Mat2::<u8>::GL_SHOULD_TRANSPOSE && r.gl_should_transpose());
+    assert!(!cm::Mat2::<u8>::GL_SHOULD_TRANSPOSE && !c.gl_should_transpose());
+    assert!(rm::Mat3::<u8>::GL_SHOULD_TRANSPOSE && rm::Mat4::<u8>::GL_SHOULD_TRANSPOSE);
+    assert!(!cm::Mat3::<u8>::GL_SHOULD_TRANSPOSE && !cm::Mat4::<u8>::GL_SHOULD_TRANSPOSE);
+    // OpenGL reads a flat array column by column unless told to transpose
+    let gl = |flat: &[u8], transpose: bool, i: usize, j: usize| if transpose { flat[i * 2 + j] } else { flat[j * 2 + i] };
+    let (fr, fc) = (r.as_row_slice(), c.as_col_slice());
+    let mut i = 0;
+    while i < 2 { let mut j = 0; while j < 2 {
+        assert!(gl(fr, rm::Mat2::<u8>::GL_SHOULD_TRANSPOSE, i, j) == vals[i][j]);
+        assert!(gl(fc, cm::Mat2::<u8>::GL_SHOULD_TRANSPOSE, i, j) == vals[i][j]);
+        j += 1; } i += 1; }
+}
